@@ -13,14 +13,29 @@ Theorem C07_variables_are_input_types : forall s d,
 Proof. exact variables_are_input_types_iff. Qed.
 Print Assumptions C07_variables_are_input_types.
 
-(* the decision core, for ALL types (any wrapper depth): the rule's effective-type comparison is
-   the specification's IsVariableUsageAllowed, on input types of a well-formed schema *)
+(* the decision core, for ALL types the grammar can express (any wrapper depth, no "T!!" at the
+   location): the rule's effective-type comparison is the specification's IsVariableUsageAllowed,
+   on input types of a well-formed schema.
+   Without [ty_proper lt] the equation is false: with lt = TNonNull (TNonNull (TNamed "Int")),
+   ld = true, v_type = TNamed "Int" and a non-null default (or v_type = TNonNull (TNamed "Int")),
+   the rule accepts (is_subtype Int! Int! = true) and the specification rejects
+   (AreTypesCompatible Int Int! = false). *)
 Theorem C07_allowed_core : forall s vd lt ld, wf_schema s = true ->
   is_input_named s (inner_type (v_type vd)) = true -> is_input_named s (inner_type lt) = true ->
+  ty_proper lt = true ->
   is_subtype s (effective_var_type vd) (effective_location_type lt ld)
   = is_variable_usage_allowed (v_type vd) (v_default vd) lt ld.
 Proof. exact allowed_core. Qed.
 Print Assumptions C07_allowed_core.
+
+(* the same under the weakest side condition: only "T!!" at a location WITH a default is excluded *)
+Theorem C07_allowed_core_weak : forall s vd lt ld, wf_schema s = true ->
+  is_input_named s (inner_type (v_type vd)) = true -> is_input_named s (inner_type lt) = true ->
+  (ld && double_non_null lt) = false ->
+  is_subtype s (effective_var_type vd) (effective_location_type lt ld)
+  = is_variable_usage_allowed (v_type vd) (v_default vd) lt ld.
+Proof. exact allowed_core_weak. Qed.
+Print Assumptions C07_allowed_core_weak.
 
 Theorem C07_no_undefined_variables : forall s d, distinct_fragments d = true -> distinct_operations d = true ->
   (run_alone R_NoUndefinedVariables s d <> [] <-> violated R_NoUndefinedVariables s d = true).
